@@ -76,6 +76,8 @@ def gen_case(rng, tier, idx):
             c["kw"]["timeframe"] = f"S{s}" if s % 60 else (f"T{s // 60}" if s % 3600 else f"H{s // 3600}")
         elif r_ < 0.5 and tf:
             c["kw"]["timeframe"] = tf.upper()  # explicitly the Hexital-level timeframe: a separate manager next to members that inherit it
+        if c["cls"] != "Amorph" and rng.random() < 0.15:
+            c["kw"]["name_suffix"] = rng.choice(["a", "1.5", "v2.0.1"])  # dots are sanitised out of names: every accessor must cope
         members.append(c)
     prog = []
     left = n - 2
@@ -194,6 +196,32 @@ def run_case(case):
                     rc = ind.reading_count(name) if f is not None else ind.reading_count()
                     if rc != trailing(want):
                         V("reading_count", f"C20|reading_count|{cls}", f"reading_count({name!r})={rc} but trailing run of readings is {trailing(want)} of {L}")
+            # helper series (stored in sub_indicators) and price fields are readable by name through the same accessors
+            for cfg, ind in built:
+                cs = ind.candles
+                L = len(cs)
+                if L == 0:
+                    continue
+                helper_names = []
+                for c in cs[-3:]:
+                    for k in vars(c)["sub_indicators"]:
+                        if k not in helper_names and "." not in k:
+                            helper_names.append(k)
+                for hname in helper_names[:3] + ["close", "volume"]:
+                    if hname in ("close", "volume"):
+                        want = [vars(c)[hname] for c in cs]
+                    else:
+                        want = [vars(c)["sub_indicators"].get(hname) for c in cs]
+                    al = ind.as_list(hname)
+                    stats["helper_name_columns"] = stats.get("helper_name_columns", 0) + 1
+                    if not same(al, want):
+                        V("agreement-sweep", f"C20|as_list-by-name|{'price-field' if hname in ('close', 'volume') else 'helper-series'}",
+                          f"{ind.name}.as_list({hname!r}) {short(al[-3:], 120)} != what the candles hold {short(want[-3:], 120)}")
+                    for i in (0, L // 2, L - 1):
+                        g1, g2 = ind.reading(hname, i), ind.read_candle(cs[i], hname)
+                        if not same(g1, want[i]) or not same(g2, want[i]):
+                            V("agreement-sweep", f"C20|reading-by-name|{'price-field' if hname in ('close', 'volume') else 'helper-series'}",
+                              f"{ind.name}.reading({hname!r}, {i})={short(g1, 80)} read_candle={short(g2, 80)} but the candle holds {short(want[i], 80)}")
             stats["points_compared"] = stats.get("points_compared", 0) + pts
             stats["falsy_present_points"] = stats.get("falsy_present_points", 0) + falsy
             stats["dotted_points"] = stats.get("dotted_points", 0) + dotted
